@@ -549,6 +549,11 @@ nfa, with no epsilon transition
         dfa = self.to_deterministic()
         enfa = EpsilonNFA()
         trash = State("TrashNode")
+        idx = 0
+        while trash in dfa.states:
+            # The sink must not be one of the states of the automaton
+            idx += 1
+            trash = State("TrashNode#" + str(idx))
         enfa.add_final_state(trash)
         for state in dfa.start_states:
             enfa.add_start_state(state)
